@@ -80,7 +80,7 @@ type wactor struct {
 }
 
 func (a *wactor) limitChoice() int {
-	switch a.r.Intn(5) {
+	switch a.r.Intn(6) {
 	case 0:
 		return 0
 	case 1:
@@ -89,6 +89,9 @@ func (a *wactor) limitChoice() int {
 		return 2
 	case 3:
 		return a.m.len()
+	case 4:
+		// around sizes an implementation might pre-allocate or cap at
+		return []int{15, 16, 17, 63, 64, 65, 127, 128, 129, 255, 256, 257, 511, 512, 513, 1000, 1025, 5000}[a.r.Intn(18)]
 	default:
 		return a.m.len() + 3
 	}
@@ -387,6 +390,11 @@ func wrapperCase(k *engine.Case) { solo(k, wrapperHistory) }
 func wrapperHistory(k *engine.Case) {
 	r := k.R
 	U := []int{6, 12, 24, 40, 64}[r.Intn(5)]
+	if r.Intn(40) == 0 {
+		// large trees: limits beyond a few hundred items must still be exact
+		U = []int{300, 420}[r.Intn(2)]
+		k.Count("wrapper_large_histories", 1)
+	}
 	w := tree.NewBTree()
 	a := &wactor{actor: newActor(k, "w", w.VerifInner(), &model{}, r, U, 2, 0), w: w}
 	a.trace = true
